@@ -182,6 +182,8 @@ int nev_execute(program * prog, vm * machine, object * result)
         return 1;
     }
 
+    set_msg_buffer(&prog->msg_count, &prog->msg_array_size, &prog->msg_array);
+
     if (machine->initialized == 0)
     {
         machine->ip = 0;
